@@ -429,13 +429,15 @@ Proof.
 Qed.
 
 (* uncached tile, upstream answers: the tile is stored; the creating answer carries the validators of
-   (now, size), which differ from those of later answers when the backend reports another time *)
-Lemma step_create : forall h tps ma st svc k inm ims body size now stored,
+   (now, size) - or of (None, None) when the tile was only linked to an existing single-colour file -, which differ
+   from those of later answers when the backend reports another time *)
+Lemma step_create : forall h tps ma st svc k inm ims body buffered stored,
   lookup st k = None ->
-  step h tps ma st (Req svc k inm ims (UOk body size now stored))
-  = (update st k {| e_ts := stored; e_size := size; e_body := body |},
+  step h tps ma st (Req svc k inm ims (UOk body buffered stored))
+  = (update st k stored,
      Some (make_conditional tps
-             (full_resp h tps ma {| ti_cacheable := true; ti_ts := Some now; ti_size := Some size |} body) inm ims)).
+             (full_resp h tps ma {| ti_cacheable := true; ti_ts := option_map fst buffered;
+                                    ti_size := option_map snd buffered |} body) inm ims)).
 Proof.
   intros. cbn [step]. unfold load. rewrite H. rewrite serve_cacheable by reflexivity. reflexivity.
 Qed.
@@ -460,7 +462,7 @@ Definition ex_h (s : str) : str := 104 :: s.
 (* a history with requests for the tile and for another one, a rewrite of another tile, conditional headers *)
 Definition ex_history : list event :=
   [Req TMS 5 None ImsAbsent UErr;
-   Req WMTS 6 None ImsAbsent (UOk 9 100 ex_stamp ex_stamp);
+   Req WMTS 6 None ImsAbsent (UOk 9 (Some (ex_stamp, 100)) ex_entry);
    Rewrite 6 ex_entry;
    Req KML 5 (Some (etag_of_entry ex_h ex_entry)) ImsAbsent UErr;
    Req WMSC 5 None (ImsDate 2023 11 14 22 13 20) UErr;
